@@ -63,6 +63,9 @@ THEOREMS = [
     # c01b: the interpreter of the translated evaluation methods agrees with the hand-written `eval` (Props/C01IR.lean)
     "KrroodVerif.Eql.IR.runNode_not",
     "KrroodVerif.Eql.IR.C01_runIR_eq_eval_not_partial",
+    "KrroodVerif.Eql.IR.loopSt_spec",
+    "KrroodVerif.Eql.IR.runNode_and",
+    "KrroodVerif.Eql.IR.C01_runIR_eq_eval_and_partial",
 ]
 # second tie (translator): the table of construction-time rewrites regenerated from the current source equals the one
 # `build` transcribes and is admissible — the same two obligations as C02 (harness/translate/c02_translate.py)
